@@ -311,7 +311,7 @@ func GenTimestamps(t *rapid.T, n int, mode int) []uint64 {
 		}
 		return ts
 	}
-	switch rapid.IntRange(0, 4).Draw(t, "tsPattern") {
+	switch rapid.IntRange(0, 5).Draw(t, "tsPattern") {
 	case 0: // increasing
 		cur := BaseTs
 		for i := range ts {
@@ -331,6 +331,14 @@ func GenTimestamps(t *rapid.T, n int, mode int) []uint64 {
 		for i := range ts {
 			cur -= uint64(rapid.IntRange(0, 1000).Draw(t, "dt"))
 			ts[i] = cur
+		}
+	case 5: // spread over widths that cross the 1-, 2-, 4- and 8-byte timestamp delta encodings
+		width := uint64(1) << uint(rapid.SampledFrom([]int{7, 8, 9, 15, 16, 17, 31, 32, 33, 36}).Draw(t, "tsWidthBits"))
+		for i := range ts {
+			ts[i] = BaseTs + uint64(rapid.Uint64Range(0, width).Draw(t, "tsOff"))
+		}
+		if n >= 2 {
+			ts[0], ts[n-1] = BaseTs, BaseTs+width // make sure the full width is present
 		}
 	default: // wide random, clustered on minute boundaries
 		for i := range ts {
